@@ -15,6 +15,7 @@
 (***************************************************************************)
 EXTENDS BoltOps
 LOCAL INSTANCE Json
+LOCAL INSTANCE Functions
 
 \* st.allocs : page (run start) -> allocating txid ; st.readers : bag of reader txids
 St0(ids) == [free |-> ids, pend |-> {}, allocs |-> <<>>, readers |-> <<>>]
@@ -73,7 +74,7 @@ CONSTANTS MaxPage, MaxTxid, MaxRun, MaxReaders
 VARIABLES st, wtx, hist
 flvars == <<st, wtx, hist>>
 Pages == 2..MaxPage
-NR(s) == LET RECURSIVE sum(_) sum(S) == IF S = {} THEN 0 ELSE LET t == CHOOSE x \in S : TRUE IN s.readers[t] + sum(S \ {t}) IN sum(DOMAIN s.readers)
+NR(s) == FoldFunction(LAMBDA a, b : a + b, 0, s.readers)      \* number of registered readers (no RECURSIVE: the proof system loads this module)
 
 FLInit == \E ids \in SUBSET Pages : st = St0(ids) /\ wtx = 1 /\ hist = <<[op |-> "Init", ids |-> ids]>>
 Log(e) == hist' = Append(hist, e)
